@@ -32,6 +32,9 @@ enum Frame {
     Raw { class: &'static str, bytes: Vec<u8> },
     /// type byte + `n` filler bytes after a valid destination key
     Oversize { batch: bool, extra: usize },
+    /// `n` ordinary datagrams in one go while the destination's outbound side is stalled
+    /// (its queue of 64 overflows); the stall is lifted before the liveness probes
+    Flood { n: usize },
 }
 
 #[derive(Clone, Copy, Debug, PartialEq, Eq, Hash)]
@@ -70,6 +73,7 @@ fn class_of(f: &Frame) -> String {
         Frame::Pong => "pong".into(),
         Frame::Raw { class, .. } => format!("rejected-{class}"),
         Frame::Oversize { batch, .. } => format!("rejected-oversize-datagram{}", if *batch { "-batch" } else { "" }),
+        Frame::Flood { .. } => "flood-while-receiver-stalled".into(),
     }
 }
 
@@ -94,6 +98,7 @@ fn encode(f: &Frame, dst_key: &[u8; 32], case_no: u64) -> Bytes {
             let len = max_len(*batch) + *extra;
             rig::enc_datagram(dst_key, 0, *batch, 1200, &vec![7u8; len])
         }
+        Frame::Flood { .. } => rig::enc_datagram(dst_key, 0, false, 0, &[case_no as u8; 100]),
     }
 }
 
@@ -104,6 +109,7 @@ fn frame_json(f: &Frame, dst: Dst, victim_conns: usize, victim_v1: bool) -> Valu
         Frame::Pong => json!({"kind": "pong"}),
         Frame::Raw { class, bytes } => json!({"kind": "raw", "class": class, "hex": common::hex(bytes)}),
         Frame::Oversize { batch, extra } => json!({"kind": "oversize", "batch": batch, "extra": extra}),
+        Frame::Flood { n } => json!({"kind": "flood", "n": n}),
     };
     json!({"frame": fj, "dst": format!("{dst:?}"), "victim_conns": victim_conns, "victim_v1": victim_v1})
 }
@@ -126,6 +132,7 @@ fn frame_from_json(v: &Value) -> Option<(Frame, Dst, usize, bool)> {
             Frame::Raw { class: "replayed", bytes }
         }
         "oversize" => Frame::Oversize { batch: f["batch"].as_bool()?, extra: f["extra"].as_u64()? as usize },
+        "flood" => Frame::Flood { n: f["n"].as_u64()? as usize },
         _ => return None,
     };
     let dst = match v["dst"].as_str()? {
@@ -253,7 +260,20 @@ async fn run_case(w: &mut World, f: &Frame, dst: Dst) -> CaseResult {
     let before_c = w.c.conn.frame_count();
     let bytes = encode(f, &dst_key, w.cases);
     let sent_len = bytes.len();
-    w.a.conn.push(bytes);
+    if let Frame::Flood { n } = f {
+        for b in &w.b.conns {
+            b.conn.set_stalled(true);
+        }
+        for _ in 0..*n {
+            w.a.conn.push(bytes.clone());
+        }
+        rig::settle().await;
+        for b in &w.b.conns {
+            b.conn.set_stalled(false);
+        }
+    } else {
+        w.a.conn.push(bytes);
+    }
     rig::settle().await;
     let mut r = CaseResult::default();
     // was it forwarded to the victim?
@@ -355,7 +375,7 @@ fn build_cases(rng: &mut Rng, quick: bool, shard: usize, shards: usize) -> Vec<(
     let span = (LIMIT / shards) + 1;
     let ex = if quick { None } else { Some((shard * span, (shard + 1) * span)) };
     for batch in [false, true] {
-        for len in length_grid(rng, batch, if quick { 150 } else { 400 }, ex) {
+        for len in length_grid(rng, batch, if quick { 1500 } else { 400 }, ex) {
             let segs: Vec<u16> = if !batch {
                 vec![0]
             } else {
@@ -387,6 +407,9 @@ fn build_cases(rng: &mut Rng, quick: bool, shard: usize, shards: usize) -> Vec<(
         // every ECN byte
         for ecn in 0..=255u8 {
             cases.push((Frame::Datagram { batch: ecn % 2 == 1, len: 40, seg: 20, ecn, long_type: false }, Dst::Victim));
+        }
+        for n in [63usize, 64, 65, 66, 100, 600] {
+            cases.push((Frame::Flood { n }, Dst::Victim));
         }
         for d in [Dst::Victim, Dst::Unconnected, Dst::Own] {
             cases.push((Frame::Ping, d));
@@ -438,7 +461,7 @@ fn main() {
     let a = args();
     let rep = Arc::new(Report::new(
         "C05",
-        "one raw client-to-relay frame per case sent by A (datagram / batch x contents length grid incl. 0..72, powers of two +-1, the 41 largest lengths up to the decoder limit, seeded random lengths; thorough: every length 0..limit; segment sizes 0/1/len/len+1/65535; every ECN byte; 1- and 2-byte frame-type encodings; ping/pong; ~40 frames the decoder rejects) addressed to victim B / unconnected id / A itself; non-trivial = distinct decoder-accepted frame addressed to the connected victim",
+        "one raw client-to-relay frame per case sent by A (datagram / batch x contents length grid incl. 0..72, powers of two +-1, the 41 largest lengths up to the decoder limit, seeded random lengths; thorough: every length 0..limit; segment sizes 0/1/len/len+1/65535; every ECN byte; 1- and 2-byte frame-type encodings; ping/pong; ~40 frames the decoder rejects; floods of 63..600 datagrams at a stalled victim) addressed to victim B / unconnected id / A itself; non-trivial = distinct decoder-accepted frame addressed to the connected victim",
         &a,
     ));
     if let Some(p) = &a.replay {
@@ -484,6 +507,7 @@ fn main() {
     rep.require("cases.dst.Unconnected", 100);
     rep.require("outcome.forwarded_to_victim", 300);
     rep.require("worlds.victim_with_two_connections", 1);
+    rep.require("cases.flood-while-receiver-stalled", 6);
     rep.assumption("frames enter at the BytesStreamSink boundary of RelayedStream (the embedding API); the websocket layer below it is not in the loop");
     rep.finish();
 }
